@@ -17,7 +17,7 @@ V = os.path.dirname(os.path.dirname(os.path.abspath(__file__)))
 REPO = os.environ.get('VERIF_REPO', '/repo')
 
 E1 = ['c13', 'c01', 'c02', 'c12']
-OTHERS = ['c05', 'c05rt', 'c07', 'c08', 'c14', 'c14rt', 'c15']
+OTHERS = ['c05', 'c05rt', 'c02loop', 'c07', 'c08', 'c14', 'c14rt', 'c15']
 
 MUTANTS = [
     # (name, property, check, runs, file, old, new)
